@@ -220,9 +220,11 @@ namespace simpl
 #endif
 
   // ---- build the chemical system and the reactions for a listing order ----
-  inline void make_system(const Mech& m, const Config& c, micm::System& sys, std::vector<micm::Process>& procs)
+  inline void make_system(const Mech& m, const Config& c, micm::System& sys, std::vector<micm::Process>& procs, bool with_unused_species = false)
   {
     std::vector<micm::Species> listed;
+    if (with_unused_species)
+      listed.push_back(mk_species(999, false, 2.5e-4));  // takes part in no reaction
     for (int id : c.order)
       listed.push_back(mk_species(m.names[id], false, m.atol[id]));
     // parameterised species used by the reactions are listed too (they are not part of the state)
@@ -286,14 +288,37 @@ namespace simpl
     const std::size_t ns = m.names.size();
     try
     {
-      auto solver = Builder(make_params(pb))
-                        .SetSystem(sys)
-                        .SetReactions(procs)
-                        .SetNumberOfGridCells((int)pb.ncells)
-                        .SetReorderState(c.reorder)
-                        .Build();
-      auto state = solver.GetState();
-      using StateT = decltype(state);
+      // Half of the runs (chosen by the case's own data) use a builder that has already built a solver for the same
+      // species listed in the opposite order plus one that takes part in no reaction, then is given the system alone again;
+      // the State used is one of that earlier solver onto which the new solver's State is copy-assigned.  Builders
+      // and States are values: neither history may show.
+      Builder builder(make_params(pb));
+      const bool reuse = c.order.size() >= 2 && ((c.order[0] + c.lu + (int)pb.ncells) % 2 == 0);
+      using SolverT = decltype(builder.Build());
+      using StateT = decltype(std::declval<SolverT&>().GetState());
+      std::unique_ptr<StateT> earlier_state;
+      if (reuse)
+      {
+        Config dc = c;
+        std::reverse(dc.order.begin(), dc.order.end());
+        micm::System dsys;
+        std::vector<micm::Process> dprocs;
+        make_system(m, dc, dsys, dprocs, true);
+        auto earlier = builder.SetSystem(dsys)
+                           .SetReactions(procs)
+                           .SetNumberOfGridCells((int)pb.ncells)
+                           .SetReorderState(c.reorder)
+                           .Build();
+        earlier_state = std::make_unique<StateT>(earlier.GetState());
+        builder.SetSystem(sys);
+      }
+      else
+        builder.SetSystem(sys).SetReactions(procs).SetNumberOfGridCells((int)pb.ncells).SetReorderState(c.reorder);
+      auto solver = builder.Build();
+      auto fresh_state = solver.GetState();
+      if (reuse)
+        *earlier_state = fresh_state;
+      StateT& state = reuse ? *earlier_state : fresh_state;
       // the name -> index map must be a bijection onto 0..N-1 that agrees with variable_names_
       const std::size_t nvar = ns + m.extra();
       std::vector<int> seen(nvar, 0);
@@ -654,6 +679,8 @@ namespace simpl
           if (outs[i].results[s].stats_.number_of_steps_ != outs[0].results[s].stats_.number_of_steps_ ||
               outs[i].results[s].stats_.accepted_ != outs[0].results[s].stats_.accepted_)
             same_history = false;
+        if (both_converged)
+          out.tok(same_history ? "NOTE_HISTORY_SAME" : "NOTE_HISTORY_DIFFERS");
         bool conc = close(outs[0].y, outs[i].y, 1e-7, 1e-12);
         if (!conc && !same_history && outs[0].y.size() == outs[i].y.size() && outs[0].atol.size() == ns)
         {
